@@ -110,6 +110,13 @@ func Families(tier string) []Family {
 				cp.Opts = []OptCfg{v, opt("bool", "b", 1), nb}
 				f.Defs = append(f.Defs, Def{Cfg: cp, Tokens: Ts("-vuv", "-ub", "-bu", "-vunb", "-v", "--b", "x"), L: lim(tier, 3, 4)})
 			}
+			if mode != 1 {
+				// map keys are lowered on request: the texts of scalar options are not keys, whatever they look like
+				cl := Cfg{Mode: mode, Lower: true}
+				cl.Nodes = []NodeCfg{rootNode(0, false)}
+				cl.Opts = []OptCfg{opt("string", "s", 1, "str"), opt("sopt", "so", 1), opt("smap", "m", 1)}
+				f.Defs = append(f.Defs, Def{Cfg: cl, Tokens: Ts("--s=K=V", "--so=K=V", "--s", "--so", "--str", "K=V", "--m=K=V", "--m", "x"), L: lim(tier, 3, 4)})
+			}
 			if mode < 2 {
 				// what was given before a wrapper command or the help command is still reported by the top-level object
 				cw := Cfg{Mode: mode}
@@ -234,12 +241,12 @@ func Families(tier string) []Family {
 			}
 		}
 		// Bundling: a typed list letter followed by a valued letter in one bundle; the word that ends the list's intake is
-		// the other letter's value, and the `--` behind it is the terminator
+		// the other letter's value, and the `--` behind it is the terminator (also for an optional-value letter that follows a valued one)
 		{
 			c := Cfg{Mode: 1}
 			c.Nodes = []NodeCfg{rootNode(2, false)}
 			c.Opts = []OptCfg{multi("islice", "n", 1, 1, 2), opt("string", "s", 1), opt("bool", "b", 1), multi("smap", "m", 1, 1, 2), opt("sopt", "o", 1)}
-			f.Defs = append(f.Defs, Def{Cfg: c, Tokens: Ts("-ns", "-mo", "1", "foo", "--", "--b"), L: 5})
+			f.Defs = append(f.Defs, Def{Cfg: c, Tokens: Ts("-ns", "-mo", "-so", "1", "foo", "--", "--b"), L: 5})
 		}
 		fams = append(fams, f)
 	}
